@@ -193,6 +193,12 @@ func replayC12(c *Ctx, rule string, raw json.RawMessage) {
 		return
 	}
 	switch cs.Kind {
+	case "alias":
+		before := tablesFingerprint()
+		clobberTables()
+		if tablesFingerprint() != before {
+			c.Violation("table-aliased", "C12.alias", cs, "replayed: fresh tables differ after a caller edited the returned slices")
+		}
 	case "json":
 		judgeJSON(c)
 	case "sets":
@@ -216,6 +222,7 @@ func runC12(c *Ctx, phase string) {
 	c.Floor("generator_files_compared", 3)
 	c.Floor("generator_variants_run", 5)
 	c.Floor("refreshed_library_runs", 1)
+	c.Floor("tables_refetched_after_client_edit", 1)
 	judgeJSON(c)
 	judgeSets(c)
 	for _, id := range u.AllLicense {
@@ -224,6 +231,13 @@ func runC12(c *Ctx, phase string) {
 	for _, e := range u.Exceptions {
 		judgeIDBehaviour(c, e, true)
 		c.Distinct(gen.HashStr("exc", e))
+	}
+	// last: a client that edits the slices it was handed (filter-in-place idiom) must not change what the library ships
+	before := tablesFingerprint()
+	clobberTables()
+	c.Inc("tables_refetched_after_client_edit")
+	if after := tablesFingerprint(); after != before {
+		c.Violation("table-aliased", "C12.alias", C12Case{Kind: "alias"}, "after a caller overwrote the slices returned by GetLicenses/GetDeprecated/GetExceptions/LicenseRanges, fresh calls return different tables (%d bytes of fingerprint differ in length or content): the shipped tables are no longer what the SPDX data says", len(after)-len(before))
 	}
 	c.Sample(map[string]any{"license_id": u.Active[0], "checks": "valid alone; ExtractLicenses returns it; matches itself; not accepted after WITH"})
 	c.Sample(map[string]any{"exception_id": u.Exceptions[0], "checks": "accepted in 'MIT WITH e'; rejected alone, as 'e WITH e', in 'MIT AND e', after '+', in parentheses"})
